@@ -73,6 +73,11 @@ func (p *PriorityPolicy) SortPeers(source *core.PeerInfo, peers []*core.PeerInfo
 		if peer == source {
 			continue
 		}
+		if source != nil && peer.PeerID == source.PeerID {
+			// Peers returned by a peer store are fresh objects, never the
+			// announcer's own PeerInfo: compare identities, not pointers.
+			continue
+		}
 		priority, label := p.policy.assignPriority(peer)
 		peerPriorities = append(peerPriorities, &peerPriorityInfo{peer, priority, label})
 	}
